@@ -1,12 +1,11 @@
 CONSTANTS
-  Scn = "inter_plain"  AdmitTags = {}  RuleTagSel = "one"  PutSel = "first"  GetSel = "first"
+  Scn = "inter_plain"  AdmitTags = {}  RuleTagSel = "small"  PutSel = "first"  GetSel = "first"
   Ports <- ScnPorts  Kind <- ScnKind  Admit <- ScnAdmit  RuleTargets <- ScnTargets
   PutPorts <- ScnPutPorts  GetPorts <- ScnGetPorts  RuleTags <- ScnRuleTags  RuleActs <- ScnRuleActs
   Consumers = {"c1"}
-  Tags = {"a"}
-  MaxPuts = 1  MaxTerm = 0  MaxRules = 1  MaxCloses = 0
+  Tags = {"a", "b"}
+  MaxPuts = 2  MaxTerm = 0  MaxRules = 2  MaxCloses = 0
   SelfReplay = TRUE
 INIT GenInit
-NEXT GenNextQuiet
+NEXT GenNext
 VIEW GenView
-INVARIANT NoDoubleEnqueue
